@@ -2,6 +2,7 @@
 SPECIFICATION Spec
 CONSTANTS
   IfaceDeep = TRUE
+  EmptyDeep = TRUE
   ExactSize = TRUE
   RedactOnCopy = TRUE
   MaxMut = 2
